@@ -14,8 +14,18 @@
    inverse suffix array + psi, record lookup through rank/select), for the executable models of
    Model.v / ModelWT.v.
    What is by interface (compared by the correspondence check, not proved): SA-IS (any sorted
-   permutation of the suffixes is THE suffix array, C19_suffix_array_unique), the RRR / sparse
-   bit-vector encodings, the Huffman code book, the byte-level serialisation.  The prefix wavelet
+   permutation of the suffixes is THE suffix array, C19_suffix_array_unique), the Huffman code
+   book, the byte-level serialisation.  The two bit-vector encodings CompressedDocument uses are
+   proved (round 2): the sparse B-tree of sparse.rs (ModelSparse.v) and the RRR vector of rrr.rs
+   (ModelRRR.v: classes, offsets through the binomial table, p / r superblock samples, s0 / s1
+   select samples, u63::select_word) construct without panicking and answer access / rank /
+   select / select0 (and the inherited rank0 / select0 of the sparse vector) exactly as the plain
+   bit list, for every bit pattern (the C19_sparse_.. and C19_rrr_.. theorems); they are put under the record
+   boundaries of the document and under every node of the prefix wavelet tree
+   (C19_compressed_document_answers_as_scan_structural_partial, C19_prefix_wavelet_tree_over_rrr).
+   Inside the document model the other sparse vectors (sigma's columns, the presence vectors of
+   the two sampled arrays, y_key) stay plain lists read through bv_access / bv_rank / bv_select,
+   which the same universal theorems show the B-tree computes.  The prefix wavelet
    tree is proved separately over bit vectors by interface (the C19_prefix_wavelet_tree theorems); the
    WaveletTreePsi theorems use a wavelet tree through its list interface.  Texts must pass
    check_record_boundaries (non-empty text, first record at 0, strictly increasing starts, last
@@ -25,7 +35,9 @@ From Coq Require Import Arith NArith List Bool Sorted.
 From Blue Require Import Scrunch.ModelBits Scrunch.Model Scrunch.ModelWT Scrunch.ProofsBits
   Scrunch.ProofsSorted Scrunch.ProofsSuffix Scrunch.ProofsIAP Scrunch.ProofsSearch Scrunch.ProofsSigma
   Scrunch.ProofsDoc Scrunch.ProofsSampled Scrunch.ProofsCompressed Scrunch.ProofsWT1 Scrunch.ProofsWT2
-  Scrunch.ProofsWT3 Scrunch.ProofsWT4 Scrunch.ModelPrefixWT Scrunch.ProofsPrefixWT.
+  Scrunch.ProofsWT3 Scrunch.ProofsWT4 Scrunch.ModelPrefixWT Scrunch.ProofsPrefixWT
+  Scrunch.ModelSparse Scrunch.ModelRRR Scrunch.ModelPrefixRRR Scrunch.ProofsSparse4 Scrunch.ProofsSparse5
+  Scrunch.ProofsRRR1 Scrunch.ProofsRRR2 Scrunch.ProofsRRR4 Scrunch.ProofsRRR6 Scrunch.ProofsStructural.
 Import ListNotations.
 Local Open Scope nat_scope.
 
@@ -174,6 +186,91 @@ Proof.
   exact (conj (rank_of_indices len idx Hs) (conj (select_of_indices len idx Hs Hb) (select_of_indices_none len idx Hs Hb))).
 Qed.
 
+(* ---- round 2: the bit-vector encodings themselves ---- *)
+
+(* sparse.rs: BitVector::from_indices builds, for every call it accepts (4 <= branch < 256, strictly
+   increasing indices below len; `from_indices` of ModelBits.v is that acceptance test and the
+   bit list meant), a B-tree of leaves and internal nodes whose access / rank / select — and the
+   rank0 / select0 it inherits from the trait — are those of the plain bit list, at every
+   argument.  `sparse_answers v b`: sv_length, sv_access, sv_rank, sv_select, default_rank0 and
+   default_select0 over sv_rank all equal the list functions of b. *)
+Theorem C19_sparse_from_indices_is_the_bit_list : forall branch len idx b,
+  from_indices branch len idx = Some b ->
+  exists v, sv_from_indices branch len idx = Some v /\ sparse_answers v b.
+Proof. exact sparse_from_indices_answers. Qed.
+
+(* ... and BitVector::construct(bits) (the indices of the set bits, branch 16), for EVERY bit list *)
+Theorem C19_sparse_construct_is_the_bit_list : forall b,
+  exists v, sv_construct b = Some v /\ sparse_answers v b.
+Proof. exact sparse_construct_answers. Qed.
+
+(* rrr.rs: decode inverts encode on every 63-bit word, and the offset fits the width L gives the
+   word's class (so Builder::push_word's assertion holds) *)
+Theorem C19_rrr_decode_inverts_encode : forall w, length w = 63 ->
+  exists o, ModelRRR.encode w = Ok (o, count1 w) /\ ModelRRR.decode o (count1 w) = Some w /\
+            (o < 2 ^ N.of_nat (nth (count1 w) L_table 0%nat))%N.
+Proof.
+  intros w Hw. exists (enc_o w).
+  exact (conj (encode_spec w Hw) (conj (decode_encode w Hw) (enc_o_fits w Hw))).
+Qed.
+
+(* u63::select_word (halving by popcounts) is select on the bits of the word *)
+Theorem C19_rrr_select_word : forall word x, length word <= 64 -> select_word word x = bv_select word x.
+Proof. exact select_word_spec. Qed.
+
+(* rrr::BitVector::construct never panics (every p / r / s0 / s1 / c / o entry fits the width it
+   is pushed with) and the vector answers access, access_rank, rank, select and select0 as the
+   plain bit list, at every argument, for every bit list shorter than 2^62 bits
+   (`rrr_len_ok n` is log2_up (n + 1) <= 62: the widths must stay below 64). *)
+Theorem C19_rrr_bit_vector_is_the_bit_list : forall b, rrr_len_ok (length b) ->
+  exists v, rr_construct b = Ok v /\ rrr_answers v b.
+Proof. exact rrr_is_the_bit_list. Qed.
+
+Theorem C19_rrr_length_bound : forall n, rrr_len_ok n <-> n + 1 <= 2 ^ 62.
+Proof. intros n. unfold rrr_len_ok. symmetry. apply Nat.log2_up_le_pow2. apply Nat.lt_0_succ || (rewrite Nat.add_1_r; apply Nat.lt_0_succ). Qed.
+
+(* the prefix wavelet tree as CompressedDocument stores it — every node an rrr vector — answers
+   as the plain symbol list *)
+Theorem C19_prefix_wavelet_tree_over_rrr :
+  forall enc dec cf text, (forall s, In s text -> enc s = Some (cf s) /\ dec (cf s) = Some s) ->
+  rrr_len_ok (length text) ->
+  forall fuel t, pt_build enc fuel text = Ok t ->
+  exists rt, rt_build enc fuel text = Ok rt /\
+    (forall x, x < length text -> rt_access dec rt x = Ok (wt_access text x)) /\
+    (forall q, In q text -> forall x, x <= length text -> rt_rank_q enc rt q x = Ok (wt_rank_q text q x)) /\
+    (forall q, In q text -> forall k, rt_select_q enc rt q k = Ok (wt_select_q text q k)).
+Proof.
+  intros enc dec cf text Hcf Hlen fuel t Hb.
+  destruct (rt_build_correct enc dec fuel text t Hlen Hb) as (rt & E & A & R & S).
+  destruct (prefix_wt_correct enc dec cf text Hcf fuel t Hb) as (PA & PR & PS).
+  exists rt. split; [exact E|]. split; [|split].
+  - intros x Hx. rewrite A. f_equal. now apply PA.
+  - intros q Hq x Hx. rewrite R. f_equal. now apply PR.
+  - intros q Hq k. rewrite S. f_equal. now apply PS.
+Qed.
+
+(* The central theorem with the sparse B-tree put under the record boundaries: the vector
+   CompressedDocument::construct builds with from_indices(16, text.len(), boundaries[1..] - 1)
+   exists, answers as the list the document model holds, and records / lookup / offset_of run on
+   it (sdoc_*: rank / select on the B-tree) answer as the scan.
+   _partial: the gap is the other sparse vectors inside the document model (sigma's columns, the
+   presence vectors of the sampled suffix arrays, y_key) and the wavelet trees of WaveletTreePsi,
+   which the model keeps as plain lists / list-interface trees; every one of them is a bit list
+   read only through bv_access / bv_rank / bv_select / bv_select0, which
+   C19_sparse_from_indices_is_the_bit_list and C19_prefix_wavelet_tree_over_rrr prove equal to the
+   encoded vectors' answers, but the document functions are not re-instantiated over them. *)
+Theorem C19_compressed_document_answers_as_scan_structural_partial : forall text rb,
+  check_record_boundaries text rb = true ->
+  exists d, construct_compressed text rb = Ok d /\ answers_as_scan text rb d /\
+    exists v, sv_from_indices 16 (length text) (map (fun b => b - 1) (tl rb)) = Some v /\
+      sparse_answers v (d_rb d) /\
+      sdoc_records v = Ok (length rb) /\
+      (forall off, off < length text -> sdoc_lookup v off = Ok (spec_record_of rb off)) /\
+      (forall r, r < length rb -> sdoc_offset_of v r = Ok (nth r rb 0)) /\
+      (forall r, length rb <= r -> sdoc_offset_of v r = Err).
+Proof. exact compressed_doc_structural. Qed.
+
+
 (* the context size the model of WaveletTreePsi is written for is the one in the source
    (re-extracted on every run into Gen/Const_Scrunch.v) *)
 Example context_size_is_two : CTX_SZ_is_two = true.
@@ -194,4 +291,21 @@ Proof.
   exists d. split; [exact C|]. destruct A as (_ & _ & S & Cn & L & R & _).
   rewrite (S [65; 78]%N), (Cn [78; 65]%N), (L 4 ltac:(cbn; auto with arith)), (R 1 ltac:(cbn; auto)), (S [67]%N).
   repeat split; reflexivity.
+Qed.
+
+Example banana_bits : list bool := [true; false; false; true; true; false; true].
+
+Example banana_sparse :
+  exists v, sv_construct banana_bits = Some v /\ sv_rank v 5 = Ok (Some 3) /\ sv_select v 3 = Some 5.
+Proof.
+  destruct (C19_sparse_construct_is_the_bit_list banana_bits) as (v & C & (_ & _ & R & S & _)).
+  exists v. split; [exact C|]. rewrite R, S. split; reflexivity.
+Qed.
+
+Example banana_rrr :
+  exists v, rr_construct banana_bits = Ok v /\ rr_rank v 5 = Ok (Some 3) /\ rr_select0 v 2 = Ok (Some 3).
+Proof.
+  destruct (C19_rrr_bit_vector_is_the_bit_list banana_bits) as (v & C & (_ & _ & R & _ & S0)).
+  - unfold rrr_len_ok. apply Nat.leb_le. reflexivity.
+  - exists v. split; [exact C|]. rewrite R, S0. split; reflexivity.
 Qed.
